@@ -16,7 +16,7 @@ import warnings
 import numpy as np
 
 RULE = ('a case = (kind chunk|rdb|token, retry configuration (total, connect, read, status, forcelist) or the default '
-        '(connect, read) form, stored chunk geometry/dtype, per-request fault script for the object requests, bucket '
+        '(connect, read) form, stored chunk geometry/dtype (five payloads incl. a zero-size array: header only), per-request fault script for the object requests, bucket '
         'state full|empty|missing, bucket already verified?, fault script for the bucket listing); fault symbols: '
         'status 500/502/503/504/404/401/403/400/416, body cut / RST / stall after k bytes with k in {0, inside magic, '
         'inside header length, inside header, first data byte, second data byte, last data byte}, reset / close / stall '
@@ -26,7 +26,21 @@ RULE = ('a case = (kind chunk|rdb|token, retry configuration (total, connect, re
         'HISTORY of get_chunk calls on ONE S3ChunkStore object (each call: bucket out of three, state of that bucket '
         'at that moment full|empty|missing, stored chunk, fault scripts for the object and the listing requests): all '
         'histories up to a length bound over an 11-symbol call alphabet x 2 buckets plus random longer histories over '
-        '3 buckets with changing bucket states, random budgets and all fault symbols; compared per call. Non-trivial = the '
+        '3 buckets with changing bucket states, random budgets and all fault symbols; compared per call. tokhist cases = a '
+        'HISTORY of uses of token strings in ONE process under a scripted clock (katdal.chunkstore_s3.time replaced by a '
+        'proxy whose time() is set per use; nothing sleeps): each use = (entry decode_jwt | S3ChunkStore(url, token) + '
+        'get_chunk | TelstateDataSource.from_url(...rdb?token=) | get_chunk on a store object constructed earlier in the '
+        'history, token out of a table of 10 hand-made JWTs (expiry T0+100 s / T0+200 s / none / already expired / given as '
+        'a string / as a float / out of scope / short signature / no prefix claim), clock T0 + offset in ms incl. the expiry second '
+        'itself, fractions just after it and clocks set back, URL https-exempt loopback or plain http://localhost, fault '
+        'script); all histories of 2 uses over 2 tokens x 3 entries (+ call) x 6 clock pairs plus random histories of 3-8 '
+        'uses; compared per use. site cases = put_chunk | is_complete | mark_complete on a fresh store with a fault script '
+        'over statuses 5xx/404/403/401/400/409, reset / close / stall before the answer (answers without a body, as S3 '
+        'gives them) plus answers with a body that is cut or reset (tie only): all scripts of length <= 2 for three '
+        'budgets plus random ones. url cases = relative paths of 1-4 components over names with / without underscores, '
+        'dashes, dots (leading / trailing slashes now and then) through S3ChunkStore.make_url and _bucket_url; '
+        'and every object request of every other case kind must ask for the path the model of make_url gives for the '
+        'chunk name. Non-trivial = the '
         'script contains at least one fault or the token is rejected; distinct by the whole canonical case.')
 ASSUMPTIONS = [
     'urllib3 2.x / requests 2.x behaviour as installed (Retry.increment/is_exhausted, urlopen status retries, '
@@ -34,6 +48,8 @@ ASSUMPTIONS = [
     'backoff sleeping is not exercised (backoff_factor=0) except the first, zero-length back-off of the default config',
     'connect-phase failures (refused / connect timeout) are outside the fault alphabet; PUT requests and is_complete '
     'use the same request loop and are not driven separately',
+    'token histories: the clock is the one katdal.chunkstore_s3 reads through its module global `time` (the translator '
+    'demands `time.time() > expiration_time`); exp claims are whole seconds, the clock has millisecond resolution',
     'a stall is silence longer than the 0.5 s read timeout; disagreements are re-run with a 2.5 s timeout before '
     'they are reported (guards against scheduling noise on a loaded machine)',
 ]
@@ -61,7 +77,8 @@ def payloads():
     arrs = [np.arange(24, dtype=np.int32).reshape(4, 6) * 7 - 5,
             (np.arange(5) * 37 % 256).astype(np.uint8),
             (np.arange(12).reshape(2, 3, 2) * (1 + 2j)).astype(np.complex64),
-            np.arange(3000, dtype=np.float64).reshape(3, 1000)]
+            np.arange(3000, dtype=np.float64).reshape(3, 1000),
+            np.zeros((0, 3), dtype=np.float32)]          # a legal chunk without any data: header only
     out = []
     for a in arrs:
         hdr, body = npy_header_and_body(a)
@@ -74,7 +91,8 @@ def payloads():
 
 def offsets(p):
     n = len(p['data'])
-    return sorted({0, 3, 9, 40, p['hdr'], p['hdr'] + 1, n - 1})
+    # strictly inside the body: a reset / stall AFTER the complete body would race with the client having finished
+    return sorted(k for k in {0, 3, 9, 40, p['hdr'], p['hdr'] + 1, n - 1} if k < n)
 
 
 def env():
@@ -125,7 +143,7 @@ def is_slow(sym):
 
 
 def wire_cfg(cfg):
-    if len(cfg) == 2:
+    if len(cfg) <= 2:            # [connect, read] | [n] (one number for both) | [] (no `retries` argument at all)
         return list(cfg)
     opt = lambda v: [] if v is None else [v]
     return [opt(cfg[0]), opt(cfg[1]), opt(cfg[2]), opt(cfg[3]), list(cfg[4])]
@@ -135,6 +153,8 @@ def retries_of(cfg):
     from urllib3.util.retry import Retry
     if len(cfg) == 2:
         return tuple(cfg)
+    if len(cfg) == 1:
+        return int(cfg[0])
     return Retry(total=cfg[0], connect=cfg[1], read=cfg[2], status=cfg[3], backoff_factor=0,
                  status_forcelist=tuple(cfg[4]))
 
@@ -154,6 +174,15 @@ def model_case(case):
                      [[o['bucket'], o['state'], pls[o['payload']]['segs'],
                        len(LISTING_FULL) if o['state'] == 0 else len(LISTING_EMPTY), o['fs'], o['fsb']]
                       for o in case['ops']]]]
+    if case['kind'] == 'tokhist':
+        return hist_model_case(case)
+    if case['kind'] == 'url':
+        return [94, [[ord(c) for c in case['rel']]]]
+    if case['kind'] == 'site':
+        n = 0 if case.get('empty', True) else len(pls[case['payload']]['data'])
+        if case['site'] == 'mark':
+            return [9, [6, wire_cfg(case['cfg']), case['fs']]]
+        return [9, [4 if case['site'] == 'put' else 5, wire_cfg(case['cfg']), n, case['fs']]]
     t = case['token']
     p = pls[case['payload']]
     codes = lambda s: [ord(c) for c in s]
@@ -193,7 +222,9 @@ def impl_chunk(case, read_timeout):
     bstate = ('full', 'empty', 'missing')[case.get('bucket', 0)]
     fake.arm([], [], bstate, p['data'])
     try:
-        store = S3ChunkStore(url, timeout=(2, read_timeout), retries=retries_of(case['cfg']), **kw)
+        if case['cfg']:
+            kw['retries'] = retries_of(case['cfg'])
+        store = S3ChunkStore(url, timeout=(2, read_timeout), **kw)
         if case.get('verified'):
             fake.arm([('status', 404)], [], 'full', p['data'])
             try:
@@ -208,7 +239,9 @@ def impl_chunk(case, read_timeout):
             cls = 7
     except Exception as e:
         cls = classify_exc(e)
+        _state['last_exc'] = str(e)
     log = fake.requests()
+    _state['last_log'] = log
     return cls, ''.join(k[0] for k in log), log
 
 
@@ -306,6 +339,10 @@ def compare_session(ctx, case, mout, read_timeout=0.5, confirm=True):
         want_req = 'O' * mo + 'B' * mb
         listed = {bucket_of_path(e[2]) for e in log if e[0] == 'B'}
         asked = {bucket_of_path(e[2]) for e in log if e[0] == 'O'}
+        if confirm and k < len(case['ops']):
+            o = case['ops'][k]
+            idx = '_'.join('%05d' % 0 for _ in env()[1][o['payload']]['array'].shape)
+            check_paths(ctx, case, log, ['%s/arr/%s.npy' % (BUCKET_NAMES[o['bucket']], idx)])
         if icls != scls:
             first.setdefault('property', (k, 'result', icls, scls))
         elif listed and listed != asked:
@@ -363,6 +400,12 @@ def compare(ctx, case, mout, read_timeout=0.5, confirm=True):
     kind = case['kind']
     if kind == 'session':
         return compare_session(ctx, case, mout, read_timeout, confirm)
+    if kind == 'tokhist':
+        return compare_hist(ctx, case, mout, read_timeout, confirm)
+    if kind == 'url':
+        return compare_url(ctx, case, mout)
+    if kind == 'site':
+        return compare_site(ctx, case, mout, read_timeout, confirm)
     case['_consumed'] = mout[1]
     if kind == 'chunk':
         case['_consumed_b'] = mout[2]
@@ -379,7 +422,10 @@ def compare(ctx, case, mout, read_timeout=0.5, confirm=True):
         if icls != mcls or ireq != want_req_m:
             problems.append(('tie', 'result' if icls != mcls else 'requests', icls, mcls))
     elif kind == 'chunk':
-        icls, ireq, _ = impl_chunk(case, read_timeout)
+        icls, ireq, clog = impl_chunk(case, read_timeout)
+        if confirm:
+            idx = '_'.join('%05d' % 0 for _ in env()[1][case['payload']]['array'].shape)
+            check_paths(ctx, case, clog, ['bkt/arr/%s.npy' % idx])
         mcls, mo, mb, scls = mout[0][0], mout[1], mout[2], mout[4][0]
         want_req_m = 'O' * mo + 'B' * mb
         problems = []
@@ -390,8 +436,10 @@ def compare(ctx, case, mout, read_timeout=0.5, confirm=True):
         if mcls != scls and not problems:
             problems.append(('property', 'model_vs_spec', mcls, scls))
     else:
+        _state.pop('last_exc', None)
         icls, ireq, log = impl_chunk(case, read_timeout)
         mcls, mn, bad = mout[0][0], mout[1], mout[2]
+        reason = [c for text, codes_ in REASONS if text in _state.get('last_exc', '') for c in codes_]
         want_req_m = 'O' * mn
         problems = []
         if bad and (icls in (OK, 7) or ireq != ''):
@@ -400,6 +448,8 @@ def compare(ctx, case, mout, read_timeout=0.5, confirm=True):
             problems.append(('property', 'missing_authorization_header', icls, mcls))
         if case.get('class_named', True) and (icls != mcls or ireq != want_req_m):
             problems.append(('tie', 'result' if icls != mcls else 'requests', icls, mcls))
+        elif reason and mout[3] not in reason:
+            problems.append(('tie', 'reject_reason', icls, mcls))     # which check of the chain fired
     if problems and confirm and read_timeout < 2.0:
         # possible scheduling noise (a slow good response looks like a stall): confirm with a generous timeout
         return compare(ctx, case, mout, read_timeout=2.5, confirm=False)
@@ -454,7 +504,7 @@ def gen_cases(ctx):
                 cases.append(dict(kind='chunk', cfg=[10, connect, read, status, list(GLITCHES)], payload=pi,
                                   fs=[list(s) for s in fs], fsb=[], bucket=rng.choice((0, 0, 1, 2)), verified=False))
     # (b) random longer scripts with every symbol, total budgets, None budgets, other forcelists
-    slow_left = [ctx.scale(45, 600)]
+    slow_left = [ctx.scale(32, 600)]
 
     def rand_sym(p, permanent_ok=True):
         r = rng.random()
@@ -471,7 +521,7 @@ def gen_cases(ctx):
             slow_left[0] -= 1
             return rng.choice(([3, rng.choice(ks)], [4, 1]))
         if permanent_ok and r < 0.97:
-            return [0, rng.choice((404, 404, 401, 403, 400, 416, 409))]
+            return [0, rng.choice((404, 404, 401, 403, 400, 416, 409, 501, 507))]
         return [0, 503]
 
     def rand_cfg():
@@ -501,7 +551,7 @@ def gen_cases(ctx):
             cases.append(dict(kind='chunk', cfg=[10, 1, read, status, list(GLITCHES)], payload=2, fs=[[0, 404]],
                               fsb=fsb, bucket=rng.choice((0, 1, 2)), verified=False))
     # (d) the default configuration (ints): at most one transient fault (the first back-off is zero)
-    for cfgd in ([2, 2], [0, 1], [1, 0]):
+    for cfgd in ([2, 2], [0, 1], [1, 0], [2], [0], [1], []):
         for s in ([0, 503], [1, 40], [4, 0], [0, 404], [0, 401], [2, 9]):
             cases.append(dict(kind='chunk', cfg=list(cfgd), payload=1, fs=[s], fsb=[], bucket=0, verified=False))
             cases.append(dict(kind='chunk', cfg=list(cfgd), payload=1, fs=[s, [0, 403]] if s[1] not in (404, 401) else [s],
@@ -561,7 +611,7 @@ def session_cases(ctx):
         for ops in itertools.product(al, repeat=3):
             cases.append(dict(kind='session', cfg=list(cfg1), ops=[dict(o) for o in ops]))
     # (b) random longer histories: 3 buckets whose state changes now and then, random budgets, all symbols
-    slow_left = [ctx.scale(12, 200)]
+    slow_left = [ctx.scale(9, 200)]
 
     def rand_sym(p, listing=False):
         r = rng.random()
@@ -686,6 +736,547 @@ def token_cases(ctx):
 
 
 # ---------------------------------------------------------------------------------------------------
+# token histories: uses of token strings in one process under a scripted clock
+
+T0 = 2000000000          # base of the scripted clock (s); the real clock is never consulted by the code under test
+ES256 = {"alg": "ES256", "typ": "JWT"}
+REASONS = (("does not have exactly two dots", {1}), ("Could not decode token", {2, 4}), ("Encoded signature has", {3}),
+           ("Expiration time must be", {5}), ("Token expired at", {6}), ("no 'prefix' claim", {7}),
+           ("only be used with https", {8}), ("does not grant access", {9}))
+
+
+class _Clock:
+    """Stand-in for the `time` module inside katdal.chunkstore_s3: time() is what the history says."""
+
+    def __init__(self, real):
+        self._real = real
+        self.now = None
+
+    def time(self):
+        return self._real.time() if self.now is None else self.now
+
+    def __getattr__(self, name):
+        return getattr(self._real, name)
+
+
+def hist_tokens():
+    """The token table: (label, header, claims with exp relative to T0 (int offset | None | str), signature length)."""
+    return [dict(label='exp100', claims={"prefix": ["bkt"], "exp": T0 + 100}),
+            dict(label='exp200', claims={"prefix": ["bkt"], "exp": T0 + 200, "iss": "kat"}),
+            dict(label='noexp', claims={"prefix": ["bkt"]}),
+            dict(label='expired', claims={"prefix": ["bkt"], "exp": T0 - 50}),
+            dict(label='exp100str', claims={"prefix": ["bkt"], "exp": str(T0 + 100)}),
+            dict(label='exp100other', claims={"prefix": ["other"], "exp": T0 + 100}),
+            dict(label='exp100short', claims={"prefix": ["bkt"], "exp": T0 + 100}, siglen=85),
+            dict(label='exp100noprefix', claims={"exp": T0 + 100}),
+            dict(label='exp150two', claims={"prefix": ["zz", "bk"], "exp": T0 + 150}),
+            dict(label='exp100float', claims={"prefix": ["bkt"], "exp": T0 + 100.75})]
+
+
+def hist_claims(case, t, attempt=0):
+    """Every history has token strings of its own (claim `jti`), so that nothing a process-wide layer may have kept
+    from an earlier history can bear on this one and a replay of the history alone behaves the same."""
+    return dict(t['claims'], jti=case.get('nonce', 0) + 1000000 * attempt)
+
+
+def hist_token_str(case, t, attempt=0):
+    return make_token(ES256, hist_claims(case, t, attempt), 'B' * (t.get('siglen', 86) - 1) + 'A')
+
+
+def hist_token_feats(t):
+    c = t['claims']
+    exp = c.get('exp')
+    return dict(nseg=3, header_ok=True, alg='ES256', siglen=t.get('siglen', 86), claims_ok=True,
+                exp=None if exp is None else int(exp), has_prefix='prefix' in c, prefixes=list(c.get('prefix', [])))
+
+
+def hist_path(u, pls):
+    if u['entry'] == 'rdb':
+        return 'bkt/x.rdb'
+    a = pls[u['payload']]['array']
+    return 'bkt/arr/' + '_'.join('%05d' % 0 for _ in a.shape) + '.npy'
+
+
+def hist_model_case(case):
+    """Times go over the wire in ms (exp claims * 1000) so that fractions of a second after the expiry are exact."""
+    _, pls = env()
+    codes = lambda s: [ord(c) for c in s]
+    toks = []
+    for t in case['tokens']:
+        f = hist_token_feats(t)
+        toks.append([f['nseg'], 1, codes(f['alg']), f['siglen'], 1, [] if f['exp'] is None else [f['exp'] * 1000],
+                     int(f['has_prefix']), [codes(x) for x in f['prefixes']]])
+    uses = []
+    for u in case['uses']:
+        e = {'decode': 0, 'open': 1, 'rdb': 1, 'call': 2}[u['entry']]
+        proc = [1, len(rdb_bytes())] if u['entry'] == 'rdb' else [0, pls[u['payload']]['segs']]
+        sch, host = ('http', '127.0.0.1') if u.get('loopback', True) else ('http', 'localhost')
+        uses.append([e, u.get('store', 0), u['tok'], T0 * 1000 + u['ms'], codes(sch), codes(host),
+                     codes(hist_path(u, pls)), proc, u['fs']])
+    return [93, [wire_cfg(case['cfg']), toks, uses]]
+
+
+def impl_hist(case, mout, read_timeout, attempt=0):
+    """All uses of the history in this process, the clock of katdal.chunkstore_s3 set before each.
+    Per use: (class, request kinds, log, reason codes | None, token string expected in the Authorization header)."""
+    import katdal.chunkstore_s3 as s3mod
+    from katdal.chunkstore_s3 import S3ChunkStore
+    from katdal.datasources import DataSourceNotFound, TelstateDataSource
+    fake, pls = env()
+    fake.max_wait = read_timeout + 2.0
+    strs = [hist_token_str(case, t, attempt) for t in case['tokens']]   # a re-run gets strings of its own
+    real = s3mod.time
+    if isinstance(real, _Clock):
+        real = real._real
+    clock = _Clock(real)
+    out = []
+    stores = []         # aligned with the model's list of store objects: (store | None, token id)
+    s3mod.time = clock
+    try:
+        for i, u in enumerate(case['uses']):
+            if i >= len(mout):
+                break
+            clock.now = T0 + u['ms'] / 1000.0
+            tokstr = strs[u['tok']]
+            base = fake.url if u.get('loopback', True) else 'http://localhost:%d' % fake.port
+            p = pls[u.get('payload', 0)]
+            a = p['array']
+            slices = tuple(slice(0, n) for n in a.shape)
+            exc = None
+            made = None
+            fake.arm([action(s) for s in u['fs']], [], 'full', rdb_bytes() if u['entry'] == 'rdb' else p['data'])
+            try:
+                if u['entry'] == 'decode':
+                    claims = s3mod.decode_jwt(tokstr)
+                    cls = OK if isinstance(claims, dict) and claims == hist_claims(case, case['tokens'][u['tok']], attempt) else 7
+                elif u['entry'] == 'rdb':
+                    src = TelstateDataSource.from_url(
+                        base + '/bkt/x.rdb?capture_block_id=1234567890&stream_name=sdp_l0&token=' + tokstr,
+                        chunk_store=None, timeout=(2, read_timeout), retries=retries_of(case['cfg']))
+                    good = src.telstate['int_time'] == 2.0 and len(src.timestamps) == 2
+                    cls = OK if good else 7
+                else:
+                    if u['entry'] == 'open':
+                        store = made = S3ChunkStore(base, timeout=(2, read_timeout), retries=retries_of(case['cfg']),
+                                                    token=tokstr)
+                    else:
+                        store, tid = stores[u['store']]
+                        tokstr = strs[tid]
+                    c = store.get_chunk('bkt/arr', slices, a.dtype)
+                    ok = isinstance(c, np.ndarray) and c.dtype == a.dtype and c.shape == a.shape and np.array_equal(c, a)
+                    cls = OK if ok else 7
+            except DataSourceNotFound as e:
+                exc = e.__cause__ if e.__cause__ is not None else e
+                cls = classify_exc(exc) if e.__cause__ is not None else RAW
+            except Exception as e:
+                exc = e
+                cls = classify_exc(e)
+            log = fake.requests()
+            reason = None
+            if exc is not None:
+                for text, codes_ in REASONS:
+                    if text in str(exc):
+                        reason = sorted(codes_)
+            # keep the list of store objects aligned with the model's
+            if u['entry'] in ('open', 'rdb') and mout[i][3] > len(stores):
+                stores.append((made, u['tok']))
+            out.append((cls, ''.join(k[0] for k in log), log, reason, tokstr, made is not None))
+    finally:
+        clock.now = None
+        s3mod.time = real
+    return out
+
+
+def hist_signature(case, k, mout, what, impl_cls, want_cls):
+    u = case['uses'][k]
+    tid = u['tok']
+    label = case['tokens'][tid]['label'] if u['entry'] != 'call' else 'store-token'
+    before = [j for j in range(k) if case['uses'][j]['tok'] == tid and case['uses'][j]['entry'] != 'call']
+    seen = sorted({'accepted' if mout[j][4][0][0] not in (INVALIDTOK, AUTH) else 'rejected' for j in before})
+    return 'kind=tokhist;entry=%s;token=%s;expired_now=%d;same_token_before=%s;clock=%s;faults=%s;what=%s;impl=%s;want=%s' % (
+        u['entry'], label, int(mout[k][5]), '+'.join(seen) or 'never',
+        'set_back' if k and u['ms'] < case['uses'][k - 1]['ms'] else 'forward',
+        '+'.join(sorted({sym_kind(s) for s in u['fs']})) or 'none', what,
+        CLASS_NAMES.get(impl_cls, impl_cls), CLASS_NAMES.get(want_cls, want_cls))
+
+
+def compare_hist(ctx, case, mout, read_timeout=0.5, confirm=True):
+    """Per use: verdict and number of requests vs the stateless spec (property), vs the model (tie); the Authorization
+    header of every request that was sent; the reason given for a rejection vs the model's decision (tie).  Only the
+    first disagreeing use is reported; the replay keeps the history up to it."""
+    res = impl_hist(case, mout, read_timeout, attempt=0 if confirm else 1)
+    stale = bool(_state.get('stale'))
+    first = {}
+    for k, (icls, ireq, log, reason, tokstr, made) in enumerate(res):
+        (mres, mn), mdec, _, mstores, (sres, sn), expired = mout[k]
+        if mdec == 99 and case['uses'][k]['entry'] == 'call':
+            ctx.count('tokhist_call_without_store')
+            break
+        mcls, scls = mres[0], sres[0]
+        rejected = scls in (INVALIDTOK, AUTH) and sn == 0
+        nreq = len(log)
+        if rejected:
+            if icls in (OK, 7) or nreq:
+                first.setdefault('property', (k, 'bad_token_not_rejected_before_request', icls, scls))
+            elif icls not in (INVALIDTOK, AUTH):
+                first.setdefault('property', (k, 'result', icls, scls))
+        else:
+            if icls != scls:
+                first.setdefault('property', (k, 'result', icls, scls))
+            elif ireq != 'O' * sn:
+                first.setdefault('property', (k, 'requests', icls, scls))
+            elif any(e[3] != 'Bearer ' + tokstr for e in log):
+                first.setdefault('property', (k, 'authorization_header', icls, scls))
+        if not stale:
+            if icls != mcls or ireq != 'O' * mn:
+                first.setdefault('tie', (k, 'result' if icls != mcls else 'requests', icls, mcls))
+            elif reason is not None and mdec not in reason and mdec != 99:
+                first.setdefault('tie', (k, 'reject_reason', icls, mcls))
+            if (mres, mn) != (sres, sn) and not first:
+                first.setdefault('property', (k, 'model_vs_spec', mcls, scls))
+        if 'property' in first:
+            break
+    if first and confirm and read_timeout < 2.0 and any(u['fs'] for u in case['uses']):
+        return compare_hist(ctx, case, mout, read_timeout=2.5, confirm=False)
+    ctx.traces_validated += len(res)
+    if first and len({d['signature'] for d in ctx.disagreements}) >= 30:
+        first = {}
+        ctx.count('disagreements_beyond_30_signatures')
+    for kind, (at, what, a, b) in sorted(first.items()):
+        short = dict(case, uses=case['uses'][:at + 1])
+        icls, ireq, _, reason, _, _ = res[at]
+        ctx.disagree(hist_signature(case, at, mout, what, a, b), short,
+                     dict(use=at, result=CLASS_NAMES.get(icls, icls), requests=ireq, reject_reason=reason,
+                          earlier=[CLASS_NAMES.get(r[0], r[0]) for r in res[:at]]),
+                     dict(model=mout[:at + 1]),
+                     'use %d of the history of token uses in one process (clock T0%+.3f s): implementation %s differs '
+                     'from %s (%s)' % (at, case['uses'][at]['ms'] / 1000.0, what,
+                                       'spec' if kind == 'property' else 'model', CLASS_NAMES.get(b, b)),
+                     spec=[m[4] for m in mout[:at + 1]], kind=kind)
+    return not first
+
+
+def hist_cases(ctx):
+    rng = ctx.rng
+    _, pls = env()
+    thorough = ctx.tier == 'thorough'
+    toks = hist_tokens()
+    G = list(GLITCHES)
+    cfg1 = [10, 1, 1, 1, G]
+    cases = []
+
+    def accepted(tid, ms, loopback=True):
+        """Would a store be constructed?  (only used to aim `call` uses at a store object that exists)"""
+        t = toks[tid]
+        exp = t['claims'].get('exp')
+        return (loopback and t.get('siglen', 86) == 86 and 'prefix' in t['claims']
+                and (exp is None or T0 * 1000 + ms <= int(exp) * 1000))
+
+    def finish(uses):
+        """Turn `call_of` (index of an earlier open use) into the index of its store object; drop dangling calls."""
+        idx, out = {}, []
+        n = 0
+        for j, u in enumerate(uses):
+            u = dict(u)
+            if u['entry'] in ('open', 'rdb'):
+                if accepted(u['tok'], u['ms'], u.get('loopback', True)):
+                    if u['entry'] == 'open':
+                        idx[j] = n
+                    n += 1
+            elif u['entry'] == 'call':
+                j0 = u.pop('call_of')
+                if j0 not in idx:
+                    continue
+                u['store'] = idx[j0]
+                u['tok'] = uses[j0]['tok']
+            out.append(u)
+        return out
+
+    # (a) all histories of 2 uses over 2 tokens x {decode, open, rdb} (+ a call on the store of the first use) and
+    #     clock pairs around the expiry second of the first token (T0+100 s), incl. a clock set back
+    pairs = [(0, 100000), (0, 100001), (99500, 100250), (100000, 101000), (0, 250000), (101000, 0)]
+    if thorough:
+        pairs += [(100001, 100001), (50000, 50000), (0, 200001), (150000, 250000)]
+    for ti, tj in itertools.product((0, 1), repeat=2):
+        for e1, e2 in itertools.product(('decode', 'open', 'rdb'), ('decode', 'open', 'rdb', 'call')):
+            if e2 == 'call' and (e1 != 'open' or ti != tj):
+                continue
+            for (m1, m2) in pairs:
+                pi = rng.randrange(len(pls))
+                uses = [dict(entry=e1, tok=ti, ms=m1, payload=pi, fs=[]),
+                        dict(entry=e2, tok=tj, ms=m2, payload=pi, fs=[], call_of=0) if e2 == 'call'
+                        else dict(entry=e2, tok=tj, ms=m2, payload=pi, fs=[])]
+                cases.append(dict(kind='tokhist', cfg=list(cfg1), tokens=toks, uses=finish(uses)))
+    # (b) random histories of 3-8 uses over the whole table
+    marks = [0, 50000, 99999, 100000, 100001, 100250, 101000, 149000, 150000, 150500, 199000, 200000, 200001, 260000,
+             -50000, -50001, -49000]
+    for _ in range(ctx.scale(110, 1200)):
+        n = rng.randint(3, 8)
+        ms = rng.choice((0, 0, 50000, 99000))
+        uses = []
+        focus = rng.sample(range(len(toks)), rng.choice((1, 2, 2, 3)))
+        for j in range(n):
+            r = rng.random()
+            if r < 0.55:
+                ms = max(ms, rng.choice(marks)) if rng.random() < 0.7 else ms + rng.choice((1, 250, 1000, 60000))
+            elif r < 0.70:
+                ms = rng.choice(marks)                        # the clock may be set back
+            tid = rng.choice(focus) if rng.random() < 0.85 else rng.randrange(len(toks))
+            pi = rng.randrange(len(pls))
+            opens = [k for k, x in enumerate(uses) if x['entry'] == 'open']
+            e = rng.choice(('decode', 'open', 'open', 'rdb', 'call', 'call') if opens else ('decode', 'open', 'open', 'rdb'))
+            fs = []
+            if e != 'decode' and rng.random() < 0.25:
+                fs = [rng.choice(([0, 503], [1, rng.choice(offsets(pls[pi])[:3])], [4, 0], [0, 401], [0, 403], [0, 400]))]
+            u = dict(entry=e, tok=tid, ms=ms, payload=pi, fs=fs)
+            if e == 'rdb':
+                u['fs'] = [s for s in fs if s[0] != 1]       # cut positions are those of the chunk payloads
+            if e == 'call':
+                u['call_of'] = rng.choice(opens)
+                u['payload'] = uses[u['call_of']]['payload'] if rng.random() < 0.5 else pi
+            if e in ('open', 'rdb') and rng.random() < 0.06:
+                u['loopback'] = False
+            uses.append(u)
+        cfg = list(cfg1) if rng.random() < 0.7 else [10, 1, rng.choice((0, 1, 2)), rng.choice((0, 1, 2)), G]
+        cases.append(dict(kind='tokhist', cfg=cfg, tokens=toks, uses=finish(uses)))
+    for n, c in enumerate(cases):
+        c['nonce'] = n + 1
+    return cases
+
+
+# ---------------------------------------------------------------------------------------------------
+# the other request sites of the public API: put_chunk, is_complete, mark_complete
+
+def impl_site(case, read_timeout):
+    """(class | ('bool', value), request paths, log) of one call on a fresh store object."""
+    from katdal.chunkstore_s3 import S3ChunkStore
+    fake, pls = env()
+    p = pls[case['payload']]
+    a = p['array']
+    slices = tuple(slice(0, n) for n in a.shape)
+    fake.max_wait = read_timeout + 2.0
+    fake.arm([action(s) for s in case['fs']], [], 'full', b'' if case.get('empty', True) else p['data'])
+    val = None
+    try:
+        store = S3ChunkStore(fake.url, timeout=(2, read_timeout), retries=retries_of(case['cfg']))
+        if case['site'] == 'put':
+            val = store.put_chunk('bkt/arr', slices, a)
+            cls = OK if val is None else 7
+        elif case['site'] == 'complete':
+            val = store.is_complete('bkt/arr')
+            cls = OK if val is True else (10 if val is False else 7)
+        else:
+            val = store.mark_complete('bkt/arr')
+            cls = OK if val is None else 7
+    except Exception as e:
+        cls = classify_exc(e)
+    log = fake.requests()
+    return cls, log
+
+
+def compare_site(ctx, case, mout, read_timeout=0.5, confirm=True):
+    import hashlib
+    _, pls = env()
+    icls, log = impl_site(case, read_timeout)
+    site = case['site']
+    names = dict(CLASS_NAMES)
+    names[10] = 'False'
+    problems = []
+    paths = [e[2].split('?')[0] for e in log]
+    if confirm:
+        idx = '_'.join('%05d' % 0 for _ in pls[case['payload']]['array'].shape)
+        check_paths(ctx, case, log, ['bkt', 'bkt/arr/complete'] if site == 'mark' else
+                    ['bkt/arr/complete'] if site == 'complete' else ['bkt/arr/%s.npy' % idx])
+    if site == 'mark':
+        mcls, nb, n = mout[0][0], mout[1], mout[2]
+        scls, snb, sn = mout[3][0], mout[4], mout[5]
+        want = ['/bkt'] * nb + ['/bkt/arr/complete'] * n
+        case['_consumed'] = nb + n
+        if icls != scls:
+            problems.append(('property', 'result', icls, scls))
+        elif paths != ['/bkt'] * snb + ['/bkt/arr/complete'] * sn:
+            problems.append(('property', 'requests', icls, scls))
+        if icls != mcls or paths != want:
+            problems.append(('tie', 'result' if icls != mcls else 'requests', icls, mcls))
+        if any(e[1] != 'PUT' for e in log):
+            problems.append(('property', 'method', icls, mcls))
+        if '/bkt/arr/complete' in paths and icls == OK and not stale_ok(paths):
+            problems.append(('property', 'marker_before_bucket', icls, mcls))
+    else:
+        if site == 'put':
+            mcls, mn, scls, sn = mout[0][0], mout[1], mout[2][0], mout[3]
+        else:
+            code = lambda r: OK if r[0] == 0 else (10 if r[0] == 1 else r[1])
+            mcls, mn, scls, sn = code(mout[0]), mout[1], code(mout[2]), mout[3]
+        case['_consumed'] = mn
+        guarded = case.get('empty', True)       # answers without a body: the counting spec applies (theorem)
+        if guarded and icls != scls:
+            problems.append(('property', 'result', icls, scls))
+        elif guarded and len(log) != sn:
+            problems.append(('property', 'requests', icls, scls))
+        if icls != mcls or len(log) != mn:
+            problems.append(('tie', 'result' if icls != mcls else 'requests', icls, mcls))
+        if site == 'put':
+            p = pls[case['payload']]
+            good = (len(p['data']), hashlib.md5(p['data']).hexdigest())
+            if any(e[1] != 'PUT' or tuple(e[4:6]) != good for e in log):
+                problems.append(('property', 'altered_upload', icls, scls))
+        elif any(e[1] != 'GET' or e[0] != 'O' for e in log):
+            problems.append(('property', 'listing_or_method', icls, scls))
+        if mcls != scls and guarded and not problems:
+            problems.append(('property', 'model_vs_spec', mcls, scls))
+    if problems and confirm and read_timeout < 2.0:
+        return compare_site(ctx, case, mout, read_timeout=2.5, confirm=False)
+    ctx.traces_validated += 1
+    if _state.get('stale'):
+        problems = [q for q in problems if q[0] == 'property']
+    if problems and len({d['signature'] for d in ctx.disagreements}) >= 30:
+        problems = []
+        ctx.count('disagreements_beyond_30_signatures')
+    for (k, what, a, b) in problems:
+        used = case['fs'][:case['_consumed']]
+        sig = 'kind=site;site=%s;answer=%s;faults=%s;what=%s;impl=%s;want=%s' % (
+            site, 'empty' if case.get('empty', True) else 'body', '+'.join(sorted({sym_kind(x) for x in used})) or 'none',
+            what, names.get(a, a), names.get(b, b))
+        ctx.disagree(sig, case, dict(result=names.get(icls, icls), requests=[(e[1], e[2]) for e in log]),
+                     dict(model=mout), '%s: implementation %s differs from %s (%s)' % (
+                         site, what, 'spec' if k == 'property' else 'model', names.get(b, b)), spec=mout, kind=k)
+    return not problems
+
+
+def stale_ok(paths):
+    """The marker is requested only after a bucket request."""
+    return paths.index('/bkt/arr/complete') > 0 and paths[0] == '/bkt'
+
+
+def site_cases(ctx):
+    rng = ctx.rng
+    _, pls = env()
+    thorough = ctx.tier == 'thorough'
+    G = list(GLITCHES)
+    cases = []
+    # no `cut after 0 bytes` of an empty answer: the server would merely close a keep-alive connection after a complete
+    # answer, and whether the NEXT request of the same call notices that in time is a race inside urllib3
+    syms = [[0, 503], [0, 500], [0, 404], [0, 403], [0, 401], [0, 400], [0, 409], [4, 0], [4, 2], [0, 502]]
+    budgets = ((1, 1), (0, 1), (2, 0)) if not thorough else tuple(itertools.product((0, 1, 2), repeat=2))
+    for site in ('put', 'complete', 'mark'):
+        for read, status in budgets:
+            for n in range(4 if thorough and (read, status) == (1, 1) else 3):
+                for fs in itertools.product(syms, repeat=n):
+                    if n == 2 and not thorough and rng.random() < 0.5:
+                        continue
+                    cases.append(dict(kind='site', site=site, cfg=[10, 1, read, status, G],
+                                      payload=rng.randrange(len(pls)), fs=[list(x) for x in fs], empty=True))
+    slow_left = [ctx.scale(4, 100)]
+    for _ in range(ctx.scale(120, 2000)):
+        opt = lambda hi: rng.choice([None] + list(range(hi + 1)) * 2)
+        cfg = [rng.choice((10, 10, None, 2, 3)), rng.choice((0, 1, 2)), opt(3), opt(3),
+               list(rng.choice([GLITCHES, GLITCHES, (503,), ()]))]
+        pi = rng.randrange(len(pls))
+        site = rng.choice(('put', 'complete', 'mark'))
+        # an answer without a body cannot be cut; a reset after it would race with the complete answer
+        empty = rng.random() < 0.7 or site == 'mark'
+        fs = []
+        for _ in range(rng.randint(1, 5)):
+            r = rng.random()
+            if r < 0.07 and slow_left[0] > 0:
+                slow_left[0] -= 1
+                fs.append([4, 1])
+            elif empty or r < 0.6:
+                fs.append(list(rng.choice(syms)))
+            else:
+                fs.append([rng.choice((1, 2)), rng.choice(offsets(pls[pi])[:-1])])
+        cases.append(dict(kind='site', site=site, cfg=cfg, payload=pi, fs=fs, empty=empty))
+    return cases
+
+
+# ---------------------------------------------------------------------------------------------------
+# which object is asked for: make_url / _bucket_url on generated relative paths
+
+def url_cases(ctx):
+    rng = ctx.rng
+    words = ['bkt', 'b_2', 'c3', '1557528200_sdp_l0', 'correlator_data', 'a_b_c', '_', '__x', 'x_', '-', 'a-b_c', 'arr',
+             '00000_00012_00512.npy', 'complete', 'w.x_y', '_-_']
+    rels = ['bkt/arr/00000_00000.npy', 'b_2/arr/00000.npy', '1557528200_sdp_l0/correlator_data/00012_00000_00512.npy',
+            'b_2', '/b_2/x_y', 'b_2/', 'a_b/c_d', '_/_', '']
+    for _ in range(ctx.scale(150, 1500)):
+        n = rng.choice((1, 2, 2, 3, 3, 4))
+        segs = [rng.choice(words) if rng.random() < 0.7 else
+                ''.join(rng.choice('ab_-.09Z') for _ in range(rng.randint(1, 6))) for _ in range(n)]
+        segs = [x if x not in ('.', '..') else 'd' + x for x in segs]
+        rel = '/'.join(segs)
+        if rng.random() < 0.1:
+            rel = '/' + rel
+        if rng.random() < 0.1:
+            rel += '/'
+        rels.append(rel)       # no empty or dot components in the middle: urljoin drops / resolves them (urllib, not katdal)
+    return [dict(kind='url', rel=r) for r in dict.fromkeys(rels) if not r.startswith('//')]
+
+
+def compare_url(ctx, case, mout):
+    import urllib.parse
+    from katdal.chunkstore_s3 import S3ChunkStore, _bucket_url
+    fake, _ = env()
+    store = _state.get('url_store')
+    if store is None:
+        store = _state['url_store'] = S3ChunkStore(fake.url)
+    txt = lambda codes: ''.join(chr(c) for c in codes)
+    want_path, want_bucket = txt(mout[0]), txt(mout[1])
+    problems = []
+    try:
+        url = store.make_url(case['rel'])
+        sp = urllib.parse.urlsplit(url)
+        got_path = sp.path
+        got_bucket = urllib.parse.urlsplit(_bucket_url(url)).path.lstrip('/')
+        base_ok = url.startswith(fake.url) and not sp.query and not sp.fragment
+    except Exception as e:
+        got_path = got_bucket = 'raised %s' % type(e).__name__
+        base_ok = True
+    ctx.traces_validated += 1
+    if got_path != want_path or not base_ok:
+        problems.append(('path', got_path, want_path))
+    elif got_bucket != want_bucket:
+        problems.append(('bucket', got_bucket, want_bucket))
+    for what, a, b in problems:
+        first = case['rel'].lstrip('/').split('/')[0]
+        sig = 'kind=url;components=%d;underscore_in_bucket=%d;underscore_in_key=%d;leading_slash=%d;what=%s' % (
+            len([x for x in case['rel'].split('/') if x]), int('_' in first),
+            int('_' in case['rel'].lstrip('/')[len(first):]), int(case['rel'].startswith('/')), what)
+        ctx.disagree(sig, case, dict(got=a), dict(model=b),
+                     'make_url / _bucket_url: %s of the request differs from the model (%r, want %r)' % (what, a, b),
+                     spec=b, kind='property')
+    return not problems
+
+
+def expected_paths(ctx):
+    """Object paths the other case kinds must ask for, from the model: chunk name -> path on the wire."""
+    _, pls = env()
+    names = {}
+    for b in BUCKET_NAMES:
+        for p in pls:
+            idx = '_'.join('%05d' % 0 for _ in p['array'].shape)
+            names['%s/arr/%s.npy' % (b, idx)] = None
+        names[b + '/arr/complete'] = None
+        names[b] = None
+    keys = sorted(names)
+    outs = ctx.model([[94, [[ord(c) for c in k]]] for k in keys])
+    return {k: ''.join(chr(c) for c in o[0]) for k, o in zip(keys, outs)}
+
+
+def check_paths(ctx, case, log, names):
+    """Every object request of a case asks for one of the expected objects (by the model of make_url)."""
+    exp = _state.get('expected_paths')
+    if not exp or _state.get('stale'):
+        return
+    ok = {exp[n] for n in names if n in exp}
+    bad = [e[2] for e in log if e[0] == 'O' and e[2].split('?')[0] not in ok]
+    if bad:
+        ctx.disagree('kind=%s;what=another_object_requested' % case['kind'], case, dict(requested=bad[:3]),
+                     dict(expected=sorted(ok)), 'a request asked for %s, expected one of %s' % (bad[0], sorted(ok)),
+                     spec=sorted(ok), kind='property')
+
+
+# ---------------------------------------------------------------------------------------------------
 
 def canon(case):
     return json.dumps({k: v for k, v in case.items() if k not in ('token_str', 'url') and not k.startswith('_')},
@@ -712,6 +1303,38 @@ def run_cases(ctx, cases):
                     ctx.count('session_repeated_404_in_unverified_bucket')
                 if mouts[i][k][5] and o['fs'][-1:] == [[0, 404]]:
                     ctx.count('session_404_in_cached_bucket')
+            continue
+        if c['kind'] == 'tokhist':
+            ctx.note_case(canon(c), nontrivial=True, sample=dict(c, tokens=[t['label'] for t in c['tokens']]) if i % 97 == 0 else None)
+            ctx.count('kind=tokhist')
+            ctx.count('tokhist_uses', len(c['uses']))
+            seen_ok = set()
+            for k, u in enumerate(c['uses']):
+                ctx.count('tokhist_entry=' + u['entry'])
+                acc = mouts[i][k][4][0][0] not in (INVALIDTOK, AUTH)
+                ctx.count('tokhist_verdict=' + ('accepted' if acc else 'rejected'))
+                if mouts[i][k][5]:
+                    ctx.count('tokhist_expired_now')
+                    if u['tok'] in seen_ok:
+                        ctx.count('tokhist_expired_after_same_token_was_accepted')
+                    if u['entry'] == 'call':
+                        ctx.count('tokhist_expired_on_live_store')
+                if acc and u['entry'] != 'call':
+                    seen_ok.add(u['tok'])
+                if k and u['ms'] < c['uses'][k - 1]['ms']:
+                    ctx.count('tokhist_clock_set_back')
+            continue
+        if c['kind'] == 'url':
+            ctx.note_case(canon(c), nontrivial='_' in c['rel'], sample=c if i % 97 == 0 else None)
+            ctx.count('kind=url')
+            first = c['rel'].lstrip('/').split('/')[0]
+            ctx.count('url_underscore=bucket:%d,key:%d' % (int('_' in first), int('_' in c['rel'].lstrip('/')[len(first):])))
+            continue
+        if c['kind'] == 'site':
+            ctx.note_case(canon(c), nontrivial=bool(c['fs']), sample=c if i % 97 == 0 else None)
+            ctx.count('kind=site')
+            ctx.count('site=%s;answer=%s' % (c['site'], 'empty' if c.get('empty', True) else 'body'))
+            ctx.count('site_len=%d' % len(c['fs']))
             continue
         nontrivial = bool(c.get('fs')) or c['kind'] == 'token'
         ctx.note_case(canon(c), nontrivial=nontrivial,
@@ -753,17 +1376,22 @@ def run(ctx):
         for fn in sorted(os.listdir(cdir)):
             if fn.endswith('.json'):
                 run_cases(ctx, [json.load(open(os.path.join(cdir, fn)))])
+    if ctx.model_ok and not _state.get('stale'):
+        _state['expected_paths'] = expected_paths(ctx)
+    run_cases(ctx, url_cases(ctx))
     run_cases(ctx, token_cases(ctx))
+    run_cases(ctx, hist_cases(ctx))
+    run_cases(ctx, site_cases(ctx))
     run_cases(ctx, session_cases(ctx))
     run_cases(ctx, gen_cases(ctx))
     ctx.exhaustive = False
     ctx.extra['exhaustive_part'] = ('all fault scripts of length <= %d over the %d fast symbols for the 9 (read, status) '
-                                    'budgets in {0,1,2}^2; all histories of <= 2 get_chunk calls on one store object '
+                                    'budgets in {0,1,2}^2 (18 symbols for the zero-size payload); all histories of <= 2 get_chunk calls on one store object '
                                     'over 11 call shapes x 2 buckets%s' % (3 if ctx.tier == 'thorough' else 2, 20,
                                     ', of 3 calls over 10 call shapes' if ctx.tier == 'thorough' else ''))
     if ctx.tier == 'thorough':
         from vh import core
-        allc = gen_cases(ctx) + token_cases(ctx) + session_cases(ctx)[::7]
+        allc = gen_cases(ctx) + token_cases(ctx) + session_cases(ctx)[::7] + hist_cases(ctx)[::5] + site_cases(ctx)[::9]
         sample = [model_case(c) for c in allc[::max(1, len(allc) // 250)][:250]]
         a = ctx.model(sample)
         # the clean rebuild of the thorough tier only compiled the cone of Props/C09.v: Dispatch needs every model
@@ -785,6 +1413,9 @@ def replay(ctx, doc):
     case = doc.get('case') or doc.get('witness')
     if not case or 'kind' not in case:
         return
+    if ctx.model_ok:
+        env()
+        _state['expected_paths'] = expected_paths(ctx)
     mo = ctx.model([model_case(case)])[0]
     ok = compare(ctx, case, mo)
     ctx.note_case(canon(case))
